@@ -384,7 +384,8 @@ EXPLANATION = (
     "R1: package call graph (self/super/module/imported-name/constructor-bound receivers resolved; name-only edges marked "
     "imprecise) from every public method of DigitalRFReader, DigitalMetadataReader, the per-directory helpers, ilsdrf/lsdrf, "
     "util.* and get_unix_time to every os/shutil mutator, write-mode open and non-'r' h5py.File; a mutator whose path has "
-    "constant provenance under /tmp in the feasible partition of self._local is the permitted scratch copy. R2: every "
+    "constant provenance under /tmp in the feasible partition of self._local is the permitted scratch copy; a finding is keyed "
+    "by callee, enclosing handler types, explicit raisers of the handled type inside the guarded region and the owning class. R2: every "
     "h5py.File of the metadata writer is a `with` context; the file-holding generator is exhausted before _write returns. "
     "R3: no reader method other than __init__ stores on self. R4: read_latest = get_bounds + read(last, ffill). R5/R6: the "
     "forward-fill range filter and numeric key ordering it depends on (shared with C12). Does NOT decide HDF5 visibility.")
